@@ -68,7 +68,9 @@ def box() -> t.Any:
     if not _BOX:
         import pane
         import types as _types
-        BT = t.TypeVar('BT')
+        # (declared over the same variable T the generated classes use: Box[T] inside a class generic in T binds the variable to
+        # itself, Box[U] / Box[int] bind it to something else - both must be substituted when the outer class is)
+        BT = T
         _BOX.append(_types.new_class('Box', (pane.PaneBase, t.Generic[BT]), {}, lambda ns: ns.update({'__annotations__': {'v': BT}})))
     return _BOX[0]
 
@@ -124,7 +126,8 @@ def ast_of(ty: t.Any) -> t.Any:
         if ty is c:
             return ('c', n)
     if isinstance(ty, type) and ty.__dict__.get('__origin__') is (_BOX[0] if _BOX else None) and _BOX:
-        return ('gen', ast_of(next(iter(ty.__dict__['__pane_boundvars__'].values()))))
+        bound = list(ty.__dict__['__pane_boundvars__'].values())
+        return ('gen', ast_of(bound[0])) if bound else ('gen', ('?', 'a parametrization that binds nothing'))
     if isinstance(ty, dict) and list(ty) == ['k']:
         return ('slit', ast_of(ty['k']))
     if isinstance(ty, tuple) and len(ty) == 2:
